@@ -18,8 +18,8 @@ type redirSpec struct {
 const redirectBinding = `"urn:oasis:names:tc:SAML:2.0:bindings:HTTP-Redirect"`
 
 var redirSpecs = []redirSpec{
-	{"(*SAMLServiceProvider).buildAuthURLFromDocument", []string{"signatureInputString"}, "SP.IdentityProviderSSOURL", []string{"SP.SignAuthnRequests", "$binding == " + redirectBinding}},
-	{"(*SAMLServiceProvider).buildLogoutURLFromDocument", nil, "SP.IdentityProviderSLOURL", []string{"$binding == " + redirectBinding}},
+	{"(*SAMLServiceProvider).buildAuthURLFromDocument", []string{"*", "-(*SAMLServiceProvider).SigningContext"}, "SP.IdentityProviderSSOURL", []string{"SP.SignAuthnRequests", "$binding == " + redirectBinding}},
+	{"(*SAMLServiceProvider).buildLogoutURLFromDocument", []string{"*", "-(*SAMLServiceProvider).SigningContext"}, "SP.IdentityProviderSLOURL", []string{"$binding == " + redirectBinding}},
 }
 
 func findCall(t *Terminal, short string) []*Event {
